@@ -183,7 +183,16 @@ def clear_adj_rib(
             reactor.processes.answer_error_sync(service)
             return False
         words = command.split()
-        direction = 'in' if 'in' in words else 'out'
+        if 'in' in words:
+            direction = 'in'
+        elif 'out' in words:
+            direction = 'out'
+        else:
+            # neither direction was named: clearing the Adj-RIB-Out withdraws every route
+            # of every selected neighbor, it is not a default to fall back on
+            self.log_failure(f'rib clear requires a direction (in or out) : {command}')
+            reactor.processes.answer_error_sync(service)
+            return False
         reactor.asynchronous.schedule(service, command, callback(self, peers, direction))
         return True
     except ValueError:
